@@ -10,19 +10,23 @@ def arr_or_scalar(r, lo, hi, shape, special=()):
     """scalar, or array with the given batch shape"""
     if shape is None:
         return pick(r, lo, hi, special)
-    return r.uniform(lo, hi, size=shape).tolist()
+    arr = r.uniform(lo, hi, size=shape)
+    if special:  # boundary values inside a batch (e.g. an ideal 180 degree pulse next to generic ones)
+        mask = r.random(size=shape) < 0.35
+        arr = np.where(mask, np.asarray(special)[r.integers(len(special), size=shape)], arr)
+    return arr.tolist()
 
 
-def gen_wide(r, length, mode=None, batch=None, allow=None):
+def gen_wide(r, length, mode=None, batch=None, allow=None, lossless=False):
     """mode: '1d' | 'nd' | 'float' | 'grad' | 'mixed' ; batch: None or leading shape tuple"""
     mode = mode or ["1d", "nd", "float", "grad", "mixed"][r.integers(5)]
     kdim = 1 if mode == "1d" else int(r.integers(1, 4))
     opts = {}
     if mode in ("float", "grad", "mixed") or r.random() < 0.2:
         opts["kgrid"] = float([0.01, 0.1, 0.5, 1.0][r.integers(4)])
-    if r.random() < 0.3:
+    if r.random() < 0.3 and not lossless:
         opts["max_nstate"] = int(r.integers(1, 6))
-    if r.random() < 0.3:
+    if r.random() < 0.3 and not lossless:
         opts["prune"] = float([1e-8, 1e-4, 1e-2][r.integers(3)])
     prog_ = []
     kinds = ["T", "E", "S", "T", "S", "E", "Phi", "P", "R", "SPOILER", "RESET", "PD", "WAIT", "D"]
@@ -51,7 +55,7 @@ def gen_wide(r, length, mode=None, batch=None, allow=None):
                 sub = ["1d", "nd", "float", "grad"][r.integers(4)]
                 if have_float and sub == "1d":
                     sub = "1d"  # int shift on float coords is legal (converted)
-            nmax = int(r.integers(1, 5)) if r.random() < 0.15 else None
+            nmax = int(r.integers(1, 5)) if (r.random() < 0.15 and not lossless) else None
             if sub == "1d":
                 kk = int(r.integers(1, 4)) * (1 if r.random() < 0.6 else -1)
                 prog_.append({"op": "S", "k": kk, "nmax": nmax})
@@ -106,6 +110,15 @@ def gen_wide(r, length, mode=None, batch=None, allow=None):
             prog_.append({"op": "WAIT", "duration": pick(r, 0, 5)})
         else:
             prog_.append({"op": k})
+    if lossless and mode in ("1d", "nd") and r.random() < 0.5:
+        # a cap that is never exceeded: truncation must then be the identity
+        tot = 0
+        for o in prog_:
+            if o["op"] == "S":
+                tot += abs(o["k"])
+            elif o["op"] == "Snd":
+                tot += int(np.max(np.abs(np.asarray(o["k"]))))
+        opts["max_nstate"] = max(1, tot)
     return {"program": prog_, "options": opts, "mode": mode, "batch": list(batch) if batch else None}
 
 
